@@ -37,6 +37,7 @@ static Plan gen_history(Rng& r, int tier, std::string const& focus)
     o.max_calls = tier ? 2000 : 300;
     o.max_iters = tier ? 8 : 5;
     o.allow_high_dims = true;
+    o.allow_tiny = true;
     if (focus == "C07") o.integ = VEGAS;
     if (focus == "C08" || focus == "C09") o.integ = MULTI;
     if (focus == "C17" && r.chance(0.6)) o.integ = MULTI;
@@ -84,8 +85,10 @@ static Plan gen_lattice(Rng& r, int tier, std::string const&)
     o.eng_class = 2;
     o.allow_dists = false;
     gen_world(r, p, o);
-    p.acc = 0;
+    // the projector variant of the integrand in a part of the plans (the accumulator differs)
+    p.acc = r.chance(0.3);
     p.dists.clear();
+    if (p.acc) gen_dists(r, p, 1 + static_cast<int>(r.below(2)), false);
     p.fk = F_POLY;
     p.genmode = 1;
     p.cbk = 1;
@@ -147,7 +150,15 @@ static Plan gen_lattice(Rng& r, int tier, std::string const&)
         p.ln = (p.dims == 1) ? (r.chance(0.5) ? 16 : 32) : 16;
         p.minw = 0;
         p.aux.clear();
-        if (r.chance(0.5))
+        if (r.chance(0.2))
+        {
+            // (iii) user weights with a floor, no adaptation: the first iteration samples with the
+            // normalised, floored, renormalised user weights; every enabled channel gets one lattice
+            p.variant = 79;
+            p.wts = 1;
+            p.minw = static_cast<ld>(static_cast<float>((0.1 + 0.85 * r.unit()) / p.chan));
+        }
+        else if (r.chance(0.5))
         {
             // (i) weights that are multiples of 1/R, zeros included: channel i gets aux[i] lattices
             p.variant = 77;
@@ -171,6 +182,7 @@ static Plan gen_lattice(Rng& r, int tier, std::string const&)
         }
     }
 
+    if (r.chance(0.04)) p.fmag = tiny_exponent(r, p.nt) + 6;   // products in the subnormal range
     p.calls.clear();
     return p;
 }
@@ -296,20 +308,20 @@ static void exec_lattice(Plan const& p, Report& rep)
     }
     if (cnt == 0) return;
     mag /= cnt;
-    ld const tol = 256 * eps * mag + 64 * eps * std::fabs(exact);
+    ld const denorm = (p.nt == NT_F) ? std::ldexp(1.0L, -149) : (p.nt == NT_D) ? std::ldexp(1.0L, -1074) : std::ldexp(1.0L, -16445);
+    ld const tol = 256 * eps * mag + 64 * eps * std::fabs(exact) + 4 * denorm;
 
     ld estimate = rv.value;
     char const* what = "results()[k].value()";
 
-    if (p.integ == MULTI && p.variant == 78)
+    if (p.integ == MULTI && (p.variant == 78 || p.variant == 79))
     {
         // every enabled channel got one lattice: combine the channel means with the recorded weights
         estimate = 0;
-        ld tot = 0;
-        for (ld a : rv.weights) tot += a;
+        // the recorded weights are used as they are: if they do not sum to one, the estimate is off
         for (std::size_t b = 0; b != blocks.size(); ++b)
         {
-            estimate += rv.weights[blocks[b]] / tot * block_sum[b] / N;
+            estimate += rv.weights[blocks[b]] * block_sum[b] / N;
         }
         what = "sum_i alpha_i mean_i(f w)";
     }
@@ -317,7 +329,7 @@ static void exec_lattice(Plan const& p, Report& rep)
     rep.nontrivial = (p.integ != PLAIN);
     if (p.variant == 3 && p.integ != MULTI) rep.probes["high-dimensional"]++;
     rep.probes[p.integ == VEGAS ? (p.variant == 2 ? "adapted-grid" : p.variant == 1 ? "user-grid" : "uniform-grid")
-                                : p.integ == MULTI ? (p.variant == 77 ? "rational-weights" : "adapted-weights")
+                                : p.integ == MULTI ? (p.variant == 77 ? "rational-weights" : p.variant == 79 ? "floored-user-weights" : "adapted-weights")
                                                    : "plain"]++;
 
     if (!(std::fabs(estimate - exact) <= tol))
@@ -798,6 +810,59 @@ static void exec_select(Plan const& p, Report& rep)
         if (!check(back, sel, "discrete_distribution")) return;
     }
     rep.probes["boundary-values-forced"] += vals.size();
+
+    // the same weights scaled down until their total is subnormal: unnormalised weight vectors of any
+    // magnitude are admissible (precision is lost, so only validity and coarse containment are checked)
+    if (p.variant != 1)
+    {
+        int const minexp = (p.nt == NT_F) ? -126 : (p.nt == NT_D) ? -1022 : -16382;
+        ld const scale = std::ldexp(1.0L, minexp - 2 - static_cast<int>(mix2(p.fseed, 17) % 6));
+        std::vector<ld> tiny;
+        ld tot = 0;
+        for (ld a : alpha)
+        {
+            tiny.push_back(round_to(p.nt, a * scale));
+            tot += tiny.back();
+        }
+        if (tot > 0)
+        {
+            rep.probes["subnormal-weight-total"]++;
+            ld acc = 0;
+            for (std::size_t i = 0; i != tiny.size(); ++i)
+            {
+                ld const lo = acc / tot;
+                acc += tiny[i];
+                ld const hi = acc / tot;
+                if (tiny[i] == 0) continue;
+                ld const u = round_to(p.nt, 0.5L * (lo + hi));
+                if (!(u >= 0 && u < 1)) continue;
+                u64 const raw = static_cast<u64>(std::ldexp(u, 64));
+                ld const back = canonical_from_raw64(p.nt, raw);
+                u64 const sel = probe_select(p.nt, tiny, raw);
+                if (sel >= tiny.size() || tiny[sel] == 0)
+                {
+                    rep.fail("C09", sel >= tiny.size() ? "invalid-channel" : "disabled-channel-selected",
+                        "weights with subnormal total", fmt(
+                        "discrete_distribution on weights with total %.3Lg: selector %.21Lg gives channel %llu of %zu",
+                        tot, back, (unsigned long long) sel, tiny.size()));
+                    return;
+                }
+                ld l2 = 0, a2 = 0;
+                for (u64 j = 0; j <= sel; ++j)
+                {
+                    l2 = a2;
+                    a2 += tiny[j];
+                }
+                if (!(back >= l2 / tot - 0.01L && back <= a2 / tot + 0.01L))
+                {
+                    rep.fail("C09", "outside-interval", "weights with subnormal total", fmt(
+                        "discrete_distribution on weights with total %.3Lg: selector %.21Lg gives channel %llu",
+                        tot, back, (unsigned long long) sel));
+                    return;
+                }
+            }
+        }
+    }
 
     // ... and inside a run: the selector draw of call c is the (d+1)-th number of the call
     Plan q = p;
